@@ -52,6 +52,16 @@ CLAIMED = {
          "consistent accounting); temp-file unlink/descriptor release after reset is observed (dir listing, /proc/self/fd), not proven",
     technique="Coq refinement proof over executable model + differential correspondence with fault injection (extracted OCaml vs C harness)",
     design="5/C17"),
+ "C06": dict(
+    text="Coq theorems over an executable model of h2.c's flow control (initial windows regenerated from source and pinned to RFC 9113, "
+         "retroactive SETTINGS_INITIAL_WINDOW_SIZE delta, WINDOW_UPDATE zero/overflow errors, h2_send_cqdata clamp and deferral, the stream loop): "
+         "for every history window = credit - sent and no DATA beyond the credit granted by then (stream and connection), stalled responses "
+         "resume, uploads get their credit back; tied by differential correspondence on credit histories against h2.c running in-process",
+    note="trusted: Coq kernel, c2v.py, extraction, harness glue (in-process connection, stub response producer), python RFC monitor; regime of the "
+         "correspondence: GET /b<N> requests, network drains every round, <= 8 streams; padded/streamed uploads are judged by the monitor only; "
+         "socket-level scheduling (who gets to write when) is abstracted to rounds",
+    technique="Coq invariant proof over executable model + differential correspondence (extracted OCaml vs in-process h2.c)",
+    design="5/C06"),
 }
 NOT_YET = "no check built yet in this round (planned, see DESIGN.md section 5)"
 
